@@ -1,1 +1,159 @@
-pub fn main(_args: &[String]) -> i32 { eprintln!("not built yet"); 2 }
+//! C21: the real meta stores (FileMetaStore, RocksDBMetaStore).
+//!
+//!   dv-store metastore run  --engine file|rocksdb --dir D --values JSON [--flush-after-save]
+//!       opens the store on D and saves the values one after the other; a line
+//!       "DVMARK begin <k>" / "DVMARK end <k>" is written to stderr (one write(2) call) around every
+//!       save_hard_state call, so that a system-call trace (strace) can be cut into windows.
+//!       With --copy-at-end C: copies D to C after the last save while the store is still open
+//!       (image a killed process leaves).
+//!   dv-store metastore load --engine file|rocksdb --list F --out R
+//!       for every directory named in F (one per line): open a fresh store on it and
+//!       load_hard_state(); R = ndjson of {"dir", "state": null | [term, id, vterm, committed], "err"}.
+use std::io::Write;
+use std::path::{Path, PathBuf};
+
+use d_engine_core::{HardState, MetaStore, StorageEngine};
+use d_engine_proto::server::election::VotedFor;
+use d_engine_server::RocksDBStorageEngine;
+use d_engine_server::storage::FileMetaStore;
+use serde_json::{Value, json};
+
+use crate::util::*;
+
+fn hs_of(v: &Value) -> HardState {
+    // [term, vote_id, vote_term, committed] ; vote_id = 0: no vote
+    let a = v.as_array().expect("value");
+    let term = a[0].as_u64().unwrap();
+    let vid = a[1].as_u64().unwrap() as u32;
+    HardState {
+        current_term: term,
+        voted_for: if vid == 0 {
+            None
+        } else {
+            Some(VotedFor {
+                voted_for_id: vid,
+                voted_for_term: a[2].as_u64().unwrap(),
+                committed: a[3].as_u64().unwrap() != 0,
+            })
+        },
+    }
+}
+
+fn hs_json(h: &HardState) -> Value {
+    match h.voted_for {
+        None => json!([h.current_term, 0, 0, 0]),
+        Some(v) => json!([h.current_term, v.voted_for_id, v.voted_for_term, if v.committed { 1 } else { 0 }]),
+    }
+}
+
+enum Store {
+    File(FileMetaStore),
+    Rocks(RocksDBStorageEngine),
+}
+
+impl Store {
+    fn open(
+        engine: &str,
+        dir: &Path,
+    ) -> Result<Store, String> {
+        match engine {
+            "file" => FileMetaStore::new(dir.to_path_buf()).map(Store::File).map_err(|e| format!("{e:?}")),
+            "rocksdb" => RocksDBStorageEngine::new(dir).map(Store::Rocks).map_err(|e| format!("{e:?}")),
+            _ => Err("unknown engine".into()),
+        }
+    }
+    fn save(
+        &self,
+        h: &HardState,
+    ) -> Result<(), String> {
+        match self {
+            Store::File(s) => s.save_hard_state(h).map_err(|e| format!("{e:?}")),
+            Store::Rocks(e) => e.meta_store().save_hard_state(h).map_err(|e| format!("{e:?}")),
+        }
+    }
+    fn flush(&self) -> Result<(), String> {
+        match self {
+            Store::File(s) => s.flush().map_err(|e| format!("{e:?}")),
+            Store::Rocks(e) => e.meta_store().flush().map_err(|e| format!("{e:?}")),
+        }
+    }
+    fn load(&self) -> Result<Option<HardState>, String> {
+        match self {
+            Store::File(s) => s.load_hard_state().map_err(|e| format!("{e:?}")),
+            Store::Rocks(e) => e.meta_store().load_hard_state().map_err(|e| format!("{e:?}")),
+        }
+    }
+}
+
+fn mark(s: &str) {
+    let _ = std::io::stderr().write_all(format!("DVMARK {s}\n").as_bytes());
+}
+
+pub fn main(args: &[String]) -> i32 {
+    let sub = args.get(2).cloned().unwrap_or_default();
+    let engine = arg(args, "--engine").unwrap_or_else(|| "file".into());
+    match sub.as_str() {
+        "run" => {
+            let dir = PathBuf::from(arg(args, "--dir").expect("--dir"));
+            let values: Vec<Value> =
+                serde_json::from_str(&arg(args, "--values").expect("--values")).expect("values json");
+            let flush_after = args.iter().any(|a| a == "--flush-after-save");
+            let store = match Store::open(&engine, &dir) {
+                Ok(s) => s,
+                Err(e) => {
+                    eprintln!("open failed: {e}");
+                    return 2;
+                }
+            };
+            for (k, v) in values.iter().enumerate() {
+                let h = hs_of(v);
+                mark(&format!("begin {}", k + 1));
+                let r = store.save(&h);
+                if flush_after {
+                    let _ = store.flush();
+                }
+                mark(&format!("end {}", k + 1));
+                if let Err(e) = r {
+                    eprintln!("save failed: {e}");
+                    return 2;
+                }
+                // optional image of the directory as a killed process would leave it right now
+                if let Some(c) = arg(args, "--copy-after-each") {
+                    let to = PathBuf::from(c).join(format!("after{}", k + 1));
+                    let _ = std::fs::remove_dir_all(&to);
+                    if let Err(e) = crate::logstore::copy_dir(&dir, &to) {
+                        eprintln!("copy failed: {e}");
+                        return 2;
+                    }
+                }
+            }
+            mark("done");
+            // leave without running destructors (a killed process runs none)
+            std::process::exit(0);
+        }
+        "load" => {
+            let list = std::fs::read_to_string(arg(args, "--list").expect("--list")).expect("list");
+            let out = arg(args, "--out").expect("--out");
+            let mut w = std::io::BufWriter::new(std::fs::File::create(out).expect("out"));
+            for d in list.lines().filter(|l| !l.trim().is_empty()) {
+                let r = std::panic::catch_unwind(|| match Store::open(&engine, Path::new(d)) {
+                    Err(e) => json!({"dir": d, "state": null, "err": format!("open: {e}")}),
+                    Ok(s) => match s.load() {
+                        Ok(None) => json!({"dir": d, "state": null, "err": null}),
+                        Ok(Some(h)) => json!({"dir": d, "state": hs_json(&h), "err": null}),
+                        Err(e) => json!({"dir": d, "state": null, "err": format!("load: {e}")}),
+                    },
+                });
+                let v = r.unwrap_or_else(|_| json!({"dir": d, "state": null, "err": "panic"}));
+                serde_json::to_writer(&mut w, &v).unwrap();
+                w.write_all(b"\n").unwrap();
+            }
+            w.flush().unwrap();
+            0
+        }
+        _ => {
+            eprintln!("usage: dv-store metastore run|load ...");
+            2
+        }
+    }
+}
